@@ -35,11 +35,25 @@ import (
 //     under the mutex, before an atomic store into a flag field of the same object, and the read is reached only
 //     through the success edge of a test of that flag.
 // Written after the round-7 report "cursor accessors are not locked against FETCH".
+//
+// Round 9 (reports "flags are read by workers without flagMutex", "SOURCE in a parallel WHERE crashes in
+// file.(*Container).Add"): the OBJECT BEHIND a pointer field. When a field F of T points to a struct of csvq that
+// carries no mutex / sync field of its own (Transaction.Flags → option.Flags, Transaction.FileContainer →
+// file.Container), the state of that object is part of T's critical sections. An access of the object through x.F
+// is a load / store of one of its fields on the pointer loaded from x.F (nested struct values and the contents of
+// its maps / slices included) or a call that receives that pointer as receiver / argument and whose callee
+// (summarised transitively over the static callee or the call-graph callees) reads / writes the pointee. The
+// guards are inferred as for fields — a write of the pointee while x.M is held exclusively, COMMIT / ROLLBACK
+// (functions that end with ReleaseResources) not counted — and each function gets ONE obligation per pointer
+// field, demanding every inferred mutex. Two more idioms are recognised for these: a closure deferred inside a
+// critical section whose Unlock was deferred earlier (runs before the release), and — for an owner type csvq
+// allocates at exactly one place (one object per process) — a call chain through an interface, followed in the
+// call graph. Copies of the pointer kept in another struct are not followed.
 
 func init() {
-	Register(&Rule{ID: "R-LKS-1", Props: []string{"C13", "C16"}, Floor: 40,
-		Doc:      "consistent locking of mutex-carrying structs: for every struct type of csvq that has a sync.Mutex / sync.RWMutex field M, every field F that some function writes (store into the field, map update / delete or element store through it) while holding x.M — or, when M is the only mutex of T, reads under it while F is written somewhere after construction — is accessed — read or written, by every function of csvq — only while the M of the same object is held (a dominating Lock, or RLock for reads, of that object's mutex, directly or through a lock wrapper, not yet released), except (each decided mechanically) in an object the function has just allocated, in helpers all of whose call sites hold the mutex, when no writer of F or not the accessing function can run in a worker goroutine (call-graph reachability from go operands and runner callbacks, through the statement interpreter too: user-defined functions called from parallel queries execute FETCH / OPEN / CLOSE in the worker), in the transaction-terminating functions, and for a read published by an atomic flag (written once under the mutex before an atomic store into a flag of the same object, read only after that flag was seen set); a bare read races with the locked writers, and a test made before the Lock acts on a stale answer",
-		Controls: []string{"CtlGuardedFieldReadBare", "CtlGuardedFieldTestedBeforeLock"},
+	Register(&Rule{ID: "R-LKS-1", Props: []string{"C13", "C16"}, Floor: 60,
+		Doc:      "consistent locking of mutex-carrying structs: for every struct type of csvq that has a sync.Mutex / sync.RWMutex field M, every field F that some function writes (store into the field, map update / delete or element store through it) while holding x.M — or, when M is the only mutex of T, reads under it while F is written somewhere after construction — is accessed — read or written, by every function of csvq — only while the M of the same object is held (a dominating Lock, or RLock for reads, of that object's mutex, directly or through a lock wrapper, not yet released), except (each decided mechanically) in an object the function has just allocated, in helpers all of whose call sites hold the mutex, when no writer of F or not the accessing function can run in a worker goroutine (call-graph reachability from go operands and runner callbacks, through the statement interpreter too: user-defined functions called from parallel queries execute FETCH / OPEN / CLOSE in the worker), in the transaction-terminating functions, and for a read published by an atomic flag (written once under the mutex before an atomic store into a flag of the same object, read only after that flag was seen set); a bare read races with the locked writers, and a test made before the Lock acts on a stale answer. The same is demanded of the OBJECT BEHIND a pointer field F of T whose pointee is a struct of csvq without a mutex / sync field of its own (Transaction.Flags, Transaction.FileContainer): an access through x.F — a load / store of a field of the pointee (nested values, map / slice contents) or a call that hands the pointer to a callee that reads / writes it (transitive summary) — holds every mutex of x under which some function, COMMIT / ROLLBACK aside, writes the pointee (one obligation per function and pointer field); a closure deferred inside a critical section whose Unlock was deferred earlier counts as inside it, and for an owner type allocated at one place only the callers are followed through interface calls in the call graph; copies of the pointer stored in other structs are not followed",
+		Controls: []string{"CtlGuardedFieldReadBare", "CtlGuardedFieldTestedBeforeLock", "CtlOwnerRegistryCallBare", "CtlOwnerRegistryFieldBare", "CtlOwnerDeferredAfterRelease"},
 		Run:      ruleLks1})
 }
 
@@ -49,6 +63,7 @@ type lksAccess struct {
 	base    ssa.Value // the object (x in x.F)
 	write   bool
 	content bool // access of the map / slice held by the field, not of the field itself
+	pointee bool // access of the struct object the (pointer) field points to — directly or by a callee that receives the pointer
 }
 
 type lksLockEv struct {
@@ -213,12 +228,13 @@ func ruleLks1(c *Ctx) {
 		t       *types.Named
 		f       int
 		content bool
+		pointee bool
 	}
 	acc := map[fieldID][]lksAccess{}
 	mutexes := map[*types.Named][]int{}
 	structs := map[*types.Named]*types.Struct{}
 	add := func(id fieldID, a lksAccess) {
-		id.content = a.content
+		id.content, id.pointee = a.content, a.pointee
 		acc[id] = append(acc[id], a)
 	}
 	contentUses := func(id fieldID, fn *ssa.Function, base ssa.Value, loaded ssa.Value) {
@@ -230,19 +246,19 @@ func ruleLks1(c *Ctx) {
 			switch x := u.(type) {
 			case *ssa.MapUpdate:
 				if x.Map == loaded {
-					add(id, lksAccess{fn, x, base, true, true})
+					add(id, lksAccess{fn: fn, at: x, base: base, write: true, content: true})
 				}
 			case *ssa.Lookup:
 				if x.X == loaded {
-					add(id, lksAccess{fn, x, base, false, true})
+					add(id, lksAccess{fn: fn, at: x, base: base, write: false, content: true})
 				}
 			case *ssa.Range:
 				if x.X == loaded {
-					add(id, lksAccess{fn, x, base, false, true})
+					add(id, lksAccess{fn: fn, at: x, base: base, write: false, content: true})
 				}
 			case *ssa.Index:
 				if x.X == loaded {
-					add(id, lksAccess{fn, x, base, false, true})
+					add(id, lksAccess{fn: fn, at: x, base: base, write: false, content: true})
 				}
 			case *ssa.IndexAddr:
 				if x.X != loaded || x.Referrers() == nil {
@@ -252,26 +268,183 @@ func ruleLks1(c *Ctx) {
 					switch y := r.(type) {
 					case *ssa.Store:
 						if y.Addr == x {
-							add(id, lksAccess{fn, y, base, true, true})
+							add(id, lksAccess{fn: fn, at: y, base: base, write: true, content: true})
 						}
 					case *ssa.UnOp:
-						add(id, lksAccess{fn, y, base, false, true})
+						add(id, lksAccess{fn: fn, at: y, base: base, write: false, content: true})
 					}
 				}
 			case ssa.CallInstruction:
 				if bi, ok := x.Common().Value.(*ssa.Builtin); ok && len(x.Common().Args) > 0 && x.Common().Args[0] == loaded {
 					switch bi.Name() {
 					case "delete":
-						add(id, lksAccess{fn, x, base, true, true})
+						add(id, lksAccess{fn: fn, at: x, base: base, write: true, content: true})
 					case "len", "cap":
 						if _, isMap := loaded.Type().Underlying().(*types.Map); isMap {
-							add(id, lksAccess{fn, x, base, false, true})
+							add(id, lksAccess{fn: fn, at: x, base: base, write: false, content: true})
 						}
 					}
 				}
 			}
 		}
 	}
+	// ---- the object a pointer field points to: when the pointee is a struct of csvq that has no mutex of its own
+	// (Transaction.Flags → option.Flags, Transaction.FileContainer → file.Container), its state belongs to the
+	// owner's critical sections. An access of the pointee through x.F is a load / store of one of its fields (nested
+	// struct values and the contents of its maps / slices included) on the pointer loaded from x.F, or a call that
+	// receives that pointer as receiver / argument and whose callee accesses the pointee (summarised over the
+	// callees, transitively). Copies of the pointer kept elsewhere (another struct, a channel) are not followed.
+	type ptrSum struct{ r, w bool }
+	type ptrKey struct {
+		fn *ssa.Function
+		i  int
+	}
+	ptrMemo := map[ptrKey]*ptrSum{}
+	var ptrUses func(ptr ssa.Value, direct func(at ssa.Instruction, write bool), depth int)
+	var ptrSummary func(fn *ssa.Function, i int, depth int) ptrSum
+	// slotUses: the uses of the address of a field (or of a nested field / array element) of the pointee
+	var slotUses func(addr ssa.Value, direct func(at ssa.Instruction, write bool))
+	slotUses = func(addr ssa.Value, direct func(at ssa.Instruction, write bool)) {
+		if addr.Referrers() == nil {
+			return
+		}
+		for _, r := range *addr.Referrers() {
+			switch y := r.(type) {
+			case *ssa.Store:
+				direct(y, y.Addr == addr)
+			case *ssa.UnOp:
+				if y.Op != token.MUL {
+					continue
+				}
+				direct(y, false)
+				// contents of a map / slice held by the pointee
+				if y.Referrers() == nil {
+					continue
+				}
+				for _, u := range *y.Referrers() {
+					switch z := u.(type) {
+					case *ssa.MapUpdate:
+						if z.Map == ssa.Value(y) {
+							direct(z, true)
+						}
+					case *ssa.IndexAddr:
+						if z.X == ssa.Value(y) && z.Referrers() != nil {
+							for _, r2 := range *z.Referrers() {
+								if st, ok := r2.(*ssa.Store); ok && st.Addr == ssa.Value(z) {
+									direct(st, true)
+								}
+							}
+						}
+					case ssa.CallInstruction:
+						if bi, ok := z.Common().Value.(*ssa.Builtin); ok && bi.Name() == "delete" && len(z.Common().Args) > 0 && z.Common().Args[0] == ssa.Value(y) {
+							direct(z, true)
+						}
+					}
+				}
+			case *ssa.FieldAddr:
+				if y.X == addr {
+					slotUses(y, direct)
+				}
+			case *ssa.IndexAddr:
+				if y.X == addr {
+					slotUses(y, direct)
+				}
+			case *ssa.DebugRef:
+			default:
+				if ci, ok := r.(ssa.CallInstruction); ok && isSyncSafe(c.P.CalleeName(ci)) {
+					continue
+				}
+				direct(r, false) // the address of the field is handed on
+			}
+		}
+	}
+	ptrUses = func(ptr ssa.Value, direct func(at ssa.Instruction, write bool), depth int) {
+		if ptr.Referrers() == nil {
+			return
+		}
+		for _, r := range *ptr.Referrers() {
+			switch y := r.(type) {
+			case *ssa.FieldAddr:
+				if y.X == ptr {
+					slotUses(y, direct)
+				}
+			case ssa.CallInstruction:
+				cc := y.Common()
+				if cc.IsInvoke() {
+					continue
+				}
+				var callees []*ssa.Function
+				if g := cc.StaticCallee(); g != nil {
+					callees = []*ssa.Function{g}
+				} else {
+					callees = c.P.Callees(y)
+				}
+				var sum ptrSum
+				for i, a := range cc.Args {
+					if a != ptr {
+						continue
+					}
+					for _, g := range callees {
+						if g == nil || g.Blocks == nil || i >= len(g.Params) {
+							continue
+						}
+						gs := ptrSummary(g, i, depth+1)
+						sum.r, sum.w = sum.r || gs.r, sum.w || gs.w
+					}
+				}
+				if sum.w {
+					direct(y.(ssa.Instruction), true)
+				} else if sum.r {
+					direct(y.(ssa.Instruction), false)
+				}
+			}
+		}
+	}
+	ptrSummary = func(fn *ssa.Function, i int, depth int) ptrSum {
+		k := ptrKey{fn, i}
+		if s, ok := ptrMemo[k]; ok {
+			return *s // a summary in progress (recursion) contributes what it has found so far
+		}
+		s := &ptrSum{}
+		ptrMemo[k] = s
+		if depth > 8 {
+			return *s
+		}
+		ptrUses(fn.Params[i], func(_ ssa.Instruction, write bool) {
+			if write {
+				s.w = true
+			} else {
+				s.r = true
+			}
+		}, depth)
+		return *s
+	}
+	// pointeeType: the field holds a pointer to a struct of csvq without a mutex of its own
+	pointeeType := func(t types.Type) bool {
+		p, ok := t.Underlying().(*types.Pointer)
+		if !ok {
+			return false
+		}
+		n, ok := p.Elem().(*types.Named)
+		if !ok || n.Obj().Pkg() == nil || !strings.Contains(n.Obj().Pkg().Path(), "mithrandie/csvq") {
+			return false
+		}
+		st, ok := n.Underlying().(*types.Struct)
+		if !ok {
+			return false
+		}
+		for i := 0; i < st.NumFields(); i++ {
+			ft := st.Field(i).Type()
+			if isMutexType(ft) {
+				return false
+			}
+			if fn, ok := ft.(*types.Named); ok && fn.Obj().Pkg() != nil && (fn.Obj().Pkg().Path() == "sync" || fn.Obj().Pkg().Path() == "sync/atomic") {
+				return false
+			}
+		}
+		return true
+	}
+
 	for _, fn := range c.P.SrcFuncs() {
 		for _, b := range fn.Blocks {
 			for _, in := range b.Instrs {
@@ -290,14 +463,20 @@ func ruleLks1(c *Ctx) {
 						switch y := r.(type) {
 						case *ssa.Store:
 							if y.Addr == x {
-								add(id, lksAccess{fn, y, x.X, true, false})
+								add(id, lksAccess{fn: fn, at: y, base: x.X, write: true, content: false})
 							} else {
-								add(id, lksAccess{fn, y, x.X, false, false})
+								add(id, lksAccess{fn: fn, at: y, base: x.X, write: false, content: false})
 							}
 						case *ssa.UnOp:
 							if y.Op == token.MUL {
-								add(id, lksAccess{fn, y, x.X, false, false})
+								add(id, lksAccess{fn: fn, at: y, base: x.X, write: false, content: false})
 								contentUses(id, fn, x.X, y)
+								if pointeeType(st.Field(x.Field).Type()) {
+									base := x.X
+									ptrUses(y, func(at ssa.Instruction, write bool) {
+										add(id, lksAccess{fn: fn, at: at, base: base, write: write, pointee: true})
+									}, 0)
+								}
 							}
 						case *ssa.DebugRef:
 						default:
@@ -305,7 +484,7 @@ func ruleLks1(c *Ctx) {
 								continue // sync/atomic operation on the field: synchronised by itself
 							}
 							// the address of the field is handed on (method with pointer receiver, &x.F)
-							add(id, lksAccess{fn, r, x.X, false, false})
+							add(id, lksAccess{fn: fn, at: r, base: x.X, write: false, content: false})
 						}
 					}
 				case *ssa.Field:
@@ -344,11 +523,102 @@ func ruleLks1(c *Ctx) {
 		return false
 	}
 
+	// ---- which functions can run in a worker goroutine: everything reachable (call graph, the statement
+	// interpreter included — a user-defined function called from a parallel query executes statements) from the
+	// operand of a `go` statement or from a callback handed to a goroutine runner
+	inWorker := map[*ssa.Function]bool{}
+	inWorkerQuery := map[*ssa.Function]bool{} // … without passing through the statement interpreter
+	var roots []*ssa.Function
+	for _, fn := range c.P.SrcFuncs() {
+		for _, call := range core.Calls(fn) {
+			g, isGo := call.(*ssa.Go)
+			if !isGo {
+				continue
+			}
+			if f := g.Common().StaticCallee(); f != nil {
+				roots = append(roots, f)
+			} else {
+				roots = append(roots, c.P.Callees(g)...)
+			}
+		}
+	}
+	for _, fam := range parAnalysis(c.P).families {
+		for _, r := range fam.regions {
+			roots = append(roots, r.fn)
+		}
+	}
+	for _, r := range roots {
+		for f := range c.P.ReachSet(r) {
+			inWorker[f] = true
+		}
+		for f, path := range staticReach(r) {
+			through := false
+			for _, pf := range path {
+				if c.P.Name(pf) == "lib/query.(*Processor).ExecuteStatement" {
+					through = true
+				}
+			}
+			if !through {
+				inWorkerQuery[f] = true
+			}
+		}
+	}
+	if len(roots) == 0 {
+		c.Unknown("concurrent regions", "-", "cannot-analyse: no go statement / goroutine runner found in csvq")
+		return
+	}
+	// terminal: a transaction-terminating function (R-PAR-6's list); a function from which one is reached by static
+	// calls without going through the statement interpreter (Transaction.Commit / Rollback end — directly or through
+	// a helper — with ReleaseResources); or a helper all of whose callers are such functions. Never one that a
+	// worker reaches without the statement interpreter. Used for the pointee objects only: what COMMIT / ROLLBACK do
+	// to the file container is not concurrent with a query (standing assumption), so their critical sections do not
+	// name its guard.
+	terminalMemo := map[*ssa.Function]bool{}
+	var terminal func(fn *ssa.Function) bool
+	terminal = func(fn *ssa.Function) bool {
+		if t, ok := terminalMemo[fn]; ok {
+			return t
+		}
+		terminalMemo[fn] = false // recursion: decided by the other callers
+		t := isTxnTerminal(c, fn)
+		if !t && c.P.Name(fn) != "lib/query.(*Processor).ExecuteStatement" {
+			reach := staticReach(fn)
+			ends, interp := false, false
+			for g := range reach {
+				if g == fn {
+					continue
+				}
+				if c.P.Name(g) == "lib/query.(*Processor).ExecuteStatement" {
+					interp = true
+				}
+				if isTxnTerminal(c, g) && c.P.Name(g) != "lib/query.NewTransaction" {
+					ends = true
+				}
+			}
+			t = ends && !interp
+		}
+		if !t {
+			edges := c.P.RealCallers(fn)
+			all := len(edges) > 0
+			for _, e := range edges {
+				if e.Site == nil || e.Site.Common().StaticCallee() != fn || !terminal(e.Caller.Func) {
+					all = false
+					break
+				}
+			}
+			t = all
+		}
+		t = t && !inWorkerQuery[fn]
+		terminalMemo[fn] = t
+		return t
+	}
+
 	// ---- guarded fields: written at least once while the mutex of the same object is held exclusively
 	type guardID struct {
 		t       *types.Named
 		f, m    int
 		content bool
+		pointee bool
 	}
 	guarded := map[guardID]string{} // → position of one locked write (the witness)
 	for id, as := range acc {
@@ -359,6 +629,9 @@ func ruleLks1(c *Ctx) {
 			}
 		}
 		for _, a := range as {
+			if a.pointee && terminal(a.fn) {
+				continue
+			}
 			// a locked write proves the intent; in a struct with a single mutex a locked read of a field that is
 			// written after construction does too (the mutex has nothing else to protect the read from)
 			if !written || (!a.write && len(mutexes[id.t]) != 1) {
@@ -367,7 +640,7 @@ func ruleLks1(c *Ctx) {
 			for _, m := range mutexes[id.t] {
 				label := valuePathLabel(a.base) + "." + structs[id.t].Field(m).Name()
 				if held(a.fn, a.at, label) == 2 {
-					g := guardID{id.t, id.f, m, id.content}
+					g := guardID{id.t, id.f, m, id.content, id.pointee}
 					if w, ok := guarded[g]; !ok || c.Pos(a.at) < w {
 						guarded[g] = c.Pos(a.at)
 					}
@@ -517,8 +790,42 @@ func ruleLks1(c *Ctx) {
 				label = u.Comment + suffix
 			}
 			for _, ref := range *mc.Referrers() {
-				call, ok := ref.(*ssa.Call)
-				if !ok {
+				var call ssa.Instruction
+				switch x := ref.(type) {
+				case *ssa.Call:
+					call = x
+				case *ssa.Defer:
+					// `defer func() { … }()` registered inside a critical section whose Unlock is itself deferred (and
+					// registered earlier: the Lock dominates this defer): deferred calls run last-in first-out, so the
+					// closure runs before the mutex is released. An explicit Unlock anywhere in the function would run
+					// before the closure: not accepted.
+					if x.Call.Value != ssa.Value(mc) {
+						return false, "closure value is handed to a deferred call at " + c.Pos(ref)
+					}
+					for _, ev := range lockEvents(parent) {
+						if ev.unlock && ev.label == label {
+							return false, "the closure is deferred at " + c.Pos(ref) + " but the mutex is released by an explicit Unlock before the deferred calls run"
+						}
+					}
+					earlier := false
+					for _, dc := range core.Calls(parent) {
+						d, isDefer := dc.(*ssa.Defer)
+						if !isDefer || len(d.Call.Args) == 0 {
+							continue
+						}
+						if is, unlock, _ := lockKind(c.P.CalleeName(d)); !is || !unlock || valuePathLabel(d.Call.Args[0]) != label {
+							continue
+						}
+						if !core.Dominates(d, x) {
+							return false, "the closure is deferred at " + c.Pos(ref) + " before the deferred Unlock at " + c.Pos(d) + " is registered: it runs after the release"
+						}
+						earlier = true
+					}
+					if !earlier {
+						return false, "the closure is deferred at " + c.Pos(ref) + " in a function that does not release the mutex by a deferred Unlock"
+					}
+					call = x
+				default:
 					return false, "closure value is stored or started as a goroutine at " + c.Pos(ref)
 				}
 				if held(parent, call, label) >= need {
@@ -546,55 +853,11 @@ func ruleLks1(c *Ctx) {
 		return false, ""
 	}
 
-	// ---- which functions can run in a worker goroutine: everything reachable (call graph, the statement
-	// interpreter included — a user-defined function called from a parallel query executes statements) from the
-	// operand of a `go` statement or from a callback handed to a goroutine runner
-	inWorker := map[*ssa.Function]bool{}
-	inWorkerQuery := map[*ssa.Function]bool{} // … without passing through the statement interpreter
-	var roots []*ssa.Function
-	for _, fn := range c.P.SrcFuncs() {
-		for _, call := range core.Calls(fn) {
-			g, isGo := call.(*ssa.Go)
-			if !isGo {
-				continue
-			}
-			if f := g.Common().StaticCallee(); f != nil {
-				roots = append(roots, f)
-			} else {
-				roots = append(roots, c.P.Callees(g)...)
-			}
-		}
-	}
-	for _, fam := range parAnalysis(c.P).families {
-		for _, r := range fam.regions {
-			roots = append(roots, r.fn)
-		}
-	}
-	for _, r := range roots {
-		for f := range c.P.ReachSet(r) {
-			inWorker[f] = true
-		}
-		for f, path := range staticReach(r) {
-			through := false
-			for _, pf := range path {
-				if c.P.Name(pf) == "lib/query.(*Processor).ExecuteStatement" {
-					through = true
-				}
-			}
-			if !through {
-				inWorkerQuery[f] = true
-			}
-		}
-	}
-	if len(roots) == 0 {
-		c.Unknown("concurrent regions", "-", "cannot-analyse: no go statement / goroutine runner found in csvq")
-		return
-	}
 	// a guarded field matters when one of its writers (outside constructors) can run in a worker
 	writerInWorker := func(id fieldID) string {
 		w := ""
 		for _, a := range acc[id] {
-			if a.write && !isFresh(a.base) && inWorker[a.fn] {
+			if a.write && !isFresh(a.base) && inWorker[a.fn] && !(a.pointee && terminal(a.fn)) {
 				if n := c.P.Name(a.fn); w == "" || n < w {
 					w = n
 				}
@@ -617,7 +880,7 @@ func ruleLks1(c *Ctx) {
 	pubFlags := func(g guardID) map[string]bool {
 		var out map[string]bool
 		mname := structs[g.t].Field(g.m).Name()
-		for _, a := range acc[fieldID{g.t, g.f, g.content}] {
+		for _, a := range acc[fieldID{g.t, g.f, g.content, g.pointee}] {
 			if !a.write || isFresh(a.base) {
 				continue
 			}
@@ -763,6 +1026,64 @@ func ruleLks1(c *Ctx) {
 		return k > 0
 	}
 
+	// ---- singleton owners: a struct type that csvq allocates at exactly one place (Transaction: NewTransaction) has
+	// one object per process, so "the mutex of the same object" is the mutex field itself (R-MTX-2 uses the same
+	// fact). For the pointee objects of such an owner a call chain that crosses an interface (Reload →
+	// Terminal.ReloadConfig → Prompt.LoadConfig) is followed in the call graph: every caller holds the field's
+	// mutex at the call, or is itself only called with it held.
+	allocSites := map[*types.Named]int{}
+	for _, fn := range c.P.SrcFuncs() {
+		if c.P.IsControl(fn) {
+			continue
+		}
+		for _, b := range fn.Blocks {
+			for _, in := range b.Instrs {
+				if al, ok := in.(*ssa.Alloc); ok {
+					if nt, ok := al.Type().(*types.Pointer).Elem().(*types.Named); ok {
+						allocSites[nt]++
+					}
+				}
+			}
+		}
+	}
+	var heldUp func(fn *ssa.Function, mn string, need int, depth int, stack map[*ssa.Function]bool) bool
+	heldUp = func(fn *ssa.Function, mn string, need int, depth int, stack map[*ssa.Function]bool) bool {
+		if depth > 6 || stack[fn] {
+			return false
+		}
+		stack[fn] = true
+		defer delete(stack, fn)
+		edges := c.P.RealCallers(fn)
+		if len(edges) == 0 {
+			return false
+		}
+		for _, e := range edges {
+			if e.Site == nil {
+				return false
+			}
+			if _, isGo := e.Site.(*ssa.Go); isGo {
+				return false
+			}
+			if _, isDefer := e.Site.(*ssa.Defer); isDefer {
+				return false
+			}
+			caller := e.Caller.Func
+			if !inWorker[caller] {
+				continue // a chain that starts outside the worker goroutines (set-up) is not concurrent with them
+			}
+			ok := false
+			for _, ev := range lockEvents(caller) {
+				if !ev.unlock && (ev.label == mn || strings.HasSuffix(ev.label, "."+mn)) && held(caller, e.Site, ev.label) >= need {
+					ok = true
+				}
+			}
+			if !ok && !heldUp(caller, mn, need, depth+1, stack) {
+				return false
+			}
+		}
+		return true
+	}
+
 	// ---- obligations
 	var gs []guardID
 	for g := range guarded {
@@ -780,24 +1101,72 @@ func ruleLks1(c *Ctx) {
 		if a.m != b.m {
 			return a.m < b.m
 		}
-		return !a.content && b.content
+		if a.content != b.content {
+			return !a.content
+		}
+		return !a.pointee && b.pointee
 	})
+	// the object behind a pointer field gets ONE obligation per function, which demands every mutex some writer
+	// relies on (two writers that hold different mutexes exclude each other only when each holds both)
+	type ptrGuard struct {
+		t *types.Named
+		f int
+	}
+	ptrGuards := map[ptrGuard][]guardID{}
+	for _, g := range gs {
+		if g.pointee {
+			ptrGuards[ptrGuard{g.t, g.f}] = append(ptrGuards[ptrGuard{g.t, g.f}], g)
+		}
+	}
 	n := 0
 	for _, g := range gs {
 		st := structs[g.t]
 		fname, mname := st.Field(g.f).Name(), st.Field(g.m).Name()
 		tname := strings.TrimPrefix(name(g.t), "lib/")
-		writer := writerInWorker(fieldID{g.t, g.f, g.content})
+		mnames := []string{mname}
+		witness := guarded[g]
+		if g.pointee {
+			all := ptrGuards[ptrGuard{g.t, g.f}]
+			if all[0] != g {
+				continue
+			}
+			mnames, witness = nil, ""
+			for i, o := range all {
+				mnames = append(mnames, st.Field(o.m).Name())
+				if i > 0 {
+					witness += "; "
+				}
+				witness += st.Field(o.m).Name() + ": " + guarded[o]
+			}
+		}
+		writer := writerInWorker(fieldID{g.t, g.f, g.content, g.pointee})
 		// group the accesses by function
 		byFn := map[*ssa.Function][]lksAccess{}
 		var fns []*ssa.Function
-		for _, a := range acc[fieldID{g.t, g.f, g.content}] {
+		for _, a := range acc[fieldID{g.t, g.f, g.content, g.pointee}] {
 			if _, ok := byFn[a.fn]; !ok {
 				fns = append(fns, a.fn)
 			}
 			byFn[a.fn] = append(byFn[a.fn], a)
 		}
 		sort.Slice(fns, func(i, j int) bool { return c.P.Name(fns[i]) < c.P.Name(fns[j]) })
+		// granularity of the report for a pointee: when most of the functions that access it (controls aside) do so
+		// without the mutex, the discipline is not established for this object at all — one obligation for the pointer
+		// field, which lists the functions, instead of one per function (the clause decided is the same; the key then
+		// survives the extraction of helpers)
+		type pend struct {
+			key, pos, why string
+			ctl           bool
+		}
+		var pendBad []pend
+		nFn, nCtl := 0, 0
+		for _, fn := range fns {
+			if c.P.IsControl(fn) {
+				nCtl++
+			} else {
+				nFn++
+			}
+		}
 		for _, fn := range fns {
 			as := byFn[fn]
 			sort.SliceStable(as, func(i, j int) bool { return c.Pos(as[i].at) < c.Pos(as[j].at) })
@@ -805,7 +1174,13 @@ func ruleLks1(c *Ctx) {
 			if g.content {
 				what = "the contents of "
 			}
+			if g.pointee {
+				what = "the object behind "
+			}
 			key := c.KeyAt(fn, fmt.Sprintf("every access of %s%s.%s holds %s.%s", what, tname, fname, tname, mname))
+			if g.pointee {
+				key = c.KeyAt(fn, fmt.Sprintf("every access of %s%s.%s holds the mutex its writers hold", what, tname, fname))
+			}
 			c.Touch(fn)
 			n++
 			var bad []string
@@ -820,8 +1195,13 @@ func ruleLks1(c *Ctx) {
 					okWhy["the object is allocated by this function"] = true
 					continue
 				}
-				label := valuePathLabel(a.base) + "." + mname
-				if held(fn, a.at, label) >= need {
+				heldAll := true
+				for _, mn := range mnames {
+					if held(fn, a.at, valuePathLabel(a.base)+"."+mn) < need {
+						heldAll = false
+					}
+				}
+				if heldAll {
 					okWhy["the mutex of the same object is held at the access"] = true
 					continue
 				}
@@ -833,7 +1213,7 @@ func ruleLks1(c *Ctx) {
 					okWhy["this function cannot run in a worker goroutine"] = true
 					continue
 				}
-				if !inWorkerQuery[fn] && isTxnTerminal(c, fn) {
+				if !inWorkerQuery[fn] && (isTxnTerminal(c, fn) || a.pointee && terminal(fn)) {
 					okWhy["transaction-terminating function: runs when no query is being evaluated (the standing assumption of R-PAR-6)"] = true
 					continue
 				}
@@ -843,12 +1223,33 @@ func ruleLks1(c *Ctx) {
 				}
 				why := ""
 				if root, suffix := rootOf(a.base); root != nil {
-					ok, w := calledLocked(fn, root, suffix+"."+mname, need, 0, map[*ssa.Function]bool{})
+					ok, w := true, ""
+					for _, mn := range mnames {
+						if held(fn, a.at, valuePathLabel(a.base)+"."+mn) >= need {
+							continue
+						}
+						if ok1, w1 := calledLocked(fn, root, suffix+"."+mn, need, 0, map[*ssa.Function]bool{}); !ok1 {
+							ok, w = false, w1
+							break
+						}
+					}
 					if ok {
 						okWhy["every call site of this function holds the object's mutex"] = true
 						continue
 					}
 					why = w
+				}
+				if a.pointee && allocSites[g.t] == 1 {
+					up := true
+					for _, mn := range mnames {
+						if held(fn, a.at, valuePathLabel(a.base)+"."+mn) < need && !heldUp(fn, mn, need, 0, map[*ssa.Function]bool{}) {
+							up = false
+						}
+					}
+					if up {
+						okWhy["every caller of this function in the call graph holds the mutex of the (one) owner object"] = true
+						continue
+					}
 				}
 				kind := "read"
 				if a.write {
@@ -872,7 +1273,37 @@ func ruleLks1(c *Ctx) {
 				c.Ok(key, c.Pos(as[0].at), strings.Join(ws, "; "))
 				continue
 			}
-			c.Bad(key, firstBad, fmt.Sprintf("%s%s.%s is written under %s.%s (e.g. at %s), but here it is accessed without that mutex: %s — both this function and a writer (%s) can run in worker goroutines (e.g. through a user-defined function called from a parallel query), so this access and the locked write are a data race, and a test-then-lock sequence acts on a stale answer", what, tname, fname, tname, mname, guarded[g], strings.Join(bad, "; "), writer))
+			under := tname + "." + mname + " (e.g. at " + witness + ")"
+			if g.pointee {
+				under = "mutexes of " + tname + " (" + witness + ")"
+			}
+			if g.pointee {
+				pendBad = append(pendBad, pend{key, firstBad, strings.Join(bad, "; "), c.P.IsControl(fn)})
+				continue
+			}
+			c.Bad(key, firstBad, fmt.Sprintf("%s%s.%s is written under %s, but here it is accessed without that mutex: %s — both this function and a writer (%s) can run in worker goroutines (e.g. through a user-defined function called from a parallel query), so this access and the locked write are a data race, and a test-then-lock sequence acts on a stale answer", what, tname, fname, under, strings.Join(bad, "; "), writer))
+		}
+		if g.pointee {
+			real := 0
+			for _, pb := range pendBad {
+				if !pb.ctl {
+					real++
+				}
+			}
+			aggregate := real >= 10 && real*2 > nFn
+			var names []string
+			for _, pb := range pendBad {
+				tail := fmt.Sprintf("the object behind %s.%s is written under mutexes of %s (%s), but here it is accessed without: %s — both this function and a writer (%s) can run in worker goroutines (e.g. through a user-defined function called from a parallel query), so this access and the locked write are a data race", tname, fname, tname, witness, pb.why, writer)
+				if aggregate && !pb.ctl {
+					names = append(names, strings.SplitN(pb.key, ": ", 2)[0]+" ("+pb.pos+")")
+					continue
+				}
+				c.Bad(pb.key, pb.pos, tail)
+			}
+			if aggregate {
+				c.Bad(fmt.Sprintf("%s.%s: every access of the object behind it holds the mutex its writers hold", tname, fname), pendBad[0].pos,
+					fmt.Sprintf("the object behind %s.%s is written under mutexes of %s (%s), but %d of the %d functions that access it do so without (the locking discipline is not established for this object, hence one obligation for the field): %s — these functions and a writer (%s) can run in worker goroutines (e.g. through a user-defined function called from a parallel query): data race", tname, fname, tname, witness, real, nFn, strings.Join(names, ", "), writer))
+			}
 		}
 	}
 	if n == 0 {
